@@ -53,6 +53,15 @@ def end_check(res, mode):
             'runahead': res.prog.runahead, 'stop': res.stops[-1]})
         if has_future(res.prog):
             preds['completable_run_stalled'] = ['future_trigger_target_not_pooled']
+        else:
+            # not the runahead limit at all: the parentless auto-spawn chain
+            # of a task broke (C01-F1) and something waits for the instance
+            # that was never spawned
+            from .c01 import explain_missing
+            roots, unexplained = explain_missing(res.model, missing, launched)
+            if missing and roots and not unexplained:
+                preds['completable_run_stalled'] = [
+                    'stall_caused_by_broken_parentless_chain']
     return preds
 
 
